@@ -541,3 +541,29 @@ M("C20", "gate-arch-table-in-pcap-truthiness", P, "", "", "C20.R5", edits=[
 M("C20", "gate-arch-helper-table-shape-for-wrong-arch", P, "", "", "C20.R5", edits=[(U, RSU_DEF, ARCH_TABLE_SHAPE.replace('arch == "x64" and not', 'arch == "x86" and not') + RSU_DEF), (P, GATE, ARCH_GATE)])
 M("C20", "gate-arch-helper-table-extra-checksum", P, "", "", "C20.R5", edits=[(U, RSU_DEF, ARCH_TABLE_SHAPE.replace('93: "x64"}', '93: "x64", 94: "x64"}') + RSU_DEF), (P, GATE, ARCH_GATE)])
 M("C20", "gate-checksum-range-test", P, GATE, '        if response.request:\n            value = utils.checksum8(response.request.uri.decode("ascii", errors="ignore"))\n            if value < 92 or value > 93:\n                return None\n', "C20.R5")
+
+# ---- wave 8.  R6: a repository *generator function* between the data and the sequence builder (`for n in _nibbles(data)`):
+# the generator's single for-loop is walked once and its yielded items take the place of the consumer's loop variable
+# (`_generator_items`); a generator of another shape is a repository call the rule cannot summarise -> undecided (silent).
+ENC_DEF = "def netbios_encode("
+GEN_YIELDS = "def _nibbles(data):\n    for c in bytearray(data):\n        hi = c >> 4\n        yield hi\n        yield c % 16\n\n\n"
+GEN_FROM = "def _nibbles(data):\n    for value in bytes(data):\n        yield from (value // 16, value & 15)\n\n\n"
+GEN_WHILE = "def _nibbles(data):\n    data = bytes(data)\n    i = 0\n    while i < len(data):\n        yield data[i] >> 4\n        yield data[i] & 15\n        i += 1\n\n\n"
+ENC_GEN_COMP = "    return bytes([n + offset for n in _nibbles(data)])\n"
+ENC_GEN_LOOP = "    out = bytearray()\n    for n in _nibbles(data):\n        out.append(offset + n)\n    return bytes(out)\n"
+T("C20", "twin-netbios-generator-comprehension", U, "", "", edits=[(U, ENC_DEF, GEN_YIELDS + ENC_DEF), (U, ENC_BODY, ENC_GEN_COMP)])
+T("C20", "twin-netbios-generator-yield-from-loop", U, "", "", edits=[(U, ENC_DEF, GEN_FROM + ENC_DEF), (U, ENC_BODY, ENC_GEN_LOOP)])
+T("C20", "twin-netbios-generator-while-undecided", U, "", "", edits=[(U, ENC_DEF, GEN_WHILE + ENC_DEF), (U, ENC_BODY, ENC_GEN_COMP)])
+M("C20", "netbios-generator-low-nibble-first", U, "", "", "C20.R6", edits=[(U, ENC_DEF, GEN_YIELDS.replace("        yield hi\n        yield c % 16\n", "        yield c % 16\n        yield hi\n") + ENC_DEF), (U, ENC_BODY, ENC_GEN_COMP)])
+M("C20", "netbios-generator-yield-from-shift-3", U, "", "", "C20.R6", edits=[(U, ENC_DEF, GEN_FROM.replace("value // 16", "value // 8") + ENC_DEF), (U, ENC_BODY, ENC_GEN_LOOP)])
+M("C20", "netbios-generator-offset-once", U, "", "", "C20.R6", edits=[(U, ENC_DEF, GEN_YIELDS.replace("        yield hi\n", "        yield hi + 1\n") + ENC_DEF), (U, ENC_BODY, ENC_GEN_COMP)])
+M("C20", "netbios-generator-reversed-data", U, "", "", "C20.R6", edits=[(U, ENC_DEF, GEN_FROM.replace("in bytes(data):", "in bytes(data)[::-1]:") + ENC_DEF), (U, ENC_BODY, ENC_GEN_LOOP)])
+
+# ---- wave 8.  R3: the items checksum8 sums must be the code points of the characters; the bytes of an *encoding* of the text
+# (`S.encode(..)`, `bytes(S, enc)`, a summing loop over them) are located and are not the code points for every str (L31).
+# Under a path condition other than a length test (an ASCII fast path) nothing is claimed.
+M("C20", "checksum-sums-latin1-bytes", U, C8_BODY, '    if len(text) < 4:\n        return 0\n    return sum(bytes(text.replace("/", ""), "latin-1", "ignore")) % 256\n', "C20.R3")
+M("C20", "checksum-loop-over-utf16-bytes", U, C8_BODY, '    if len(text) < 4:\n        return 0\n    total = 0\n    for b in "".join(text.split("/")).encode("UTF_16_LE"):\n        total += b\n    return total & 0xFF\n', "C20.R3")
+M("C20", "checksum-sums-utf8-bytearray-view", U, '    return sum(map(ord, text)) % 256\n', '    return sum(bytearray(text.encode("utf8"))) % 256\n', "C20.R3")
+T("C20", "twin-checksum-ascii-fast-path", U, C8_BODY, '    if len(text) < 4:\n        return 0\n    text = text.replace("/", "")\n    if text.isascii():\n        return sum(text.encode()) % 256\n    return sum(map(ord, text)) % 256\n')
+T("C20", "twin-checksum-unknown-codec-undecided", U, '    return sum(map(ord, text)) % 256\n', '    return sum(text.encode(_CODEC)) % 256\n')
